@@ -1632,6 +1632,9 @@ def staged_cases(draw):
     stages = []
     for i in range(n):
         cs = draw(st.one_of(opt_cases(True), mcmc_cases(True)))
+        for p_ in cs.get("params", []):
+            if p_.get("form") in LIKE_FORMS:
+                p_["dtype"] = p_.get("like_dtype")  # the dtype lost by *_like definitions (known finding) is exercised in the single-stage sub-checks
         cs.pop("plate", None)  # references to expanded plate ids are written out (w.0, w.1): not prefixed by _prefixed
         if cs["alg"] == "mcmc":
             # one tree per configuration would need unique taxon names: the GMRF block operator stays in the single-stage sub-checks
